@@ -25,6 +25,7 @@ import (
 	"reduction.dev/reduction/proto/snapshotpb"
 	"reduction.dev/reduction/proto/workerpb"
 	"reduction.dev/reduction/util/size"
+	"reduction.dev/reduction/util/verifhook"
 )
 
 type Operator struct {
@@ -250,6 +251,7 @@ func (o *Operator) HandleEvent(ctx context.Context, senderID string, req *worker
 	waitOnAlignment := o.checkpoint.alignSender(senderID)
 	o.mu.RUnlock()
 	waitOnAlignment()
+	verifhook.Point("operator.align.pass", senderID)
 
 	// Collect the err response from the queued event.
 	respErr := make(chan error)
